@@ -335,6 +335,12 @@ func ruleDROPEMPTY(c *Ctx) {
 // TakeFrom is (a) a result of resolveParam, (b) the Param of the same literal (identity
 // forwarding inside a wrapper that shares its Params with the target), or (c) chosen under an
 // equality test of the two parameters' Name strings.
+// takefromIdentityOK: functions in which "forward parameter p as parameter p" is right.
+var takefromIdentityOK = map[string]string{
+	"compiler.syntaxLoader.instantiateOpt": "the generated Xopt wrapper declares exactly the parameters of X (nt.Params = X's Params)",
+	"syntax.PropagateLookaheads":           "lookahead flags are global parameters that the loop itself adds to both nonterminals",
+}
+
 func ruleTAKEFROM(c *Ctx) {
 	const rule = "AGREE(takefrom-by-name)"
 	n := 0
@@ -381,7 +387,11 @@ func ruleTAKEFROM(c *Ctx) {
 						}
 					}
 					if same {
-						c.Ok(rule, key, st.Pos(), "identity forwarding: TakeFrom equals Param of the same argument")
+						if why, ok := takefromIdentityOK[ssaFuncKey(f)]; ok {
+							c.Ok(rule, key, st.Pos(), "identity forwarding (TakeFrom equals Param of the same argument): %s", why)
+						} else {
+							c.Bad(rule, key, st.Pos(), "TakeFrom is the target's own parameter index: that is the enclosing nonterminal's parameter only for global parameters; a same-named inline parameter of the enclosing nonterminal has another index, is not forwarded, and the callee silently gets its default")
+						}
 						continue
 					}
 					// (b') a predicate's own parameter, resolved in the context it is written in
